@@ -63,6 +63,8 @@ def guard_table_check(ctx):
 
 
 def run(ctx):
+    import os
+    os.environ.setdefault("VERIF_OP_TIMEOUT", "120")   # per-operation watchdog of harness/common.h: a blocked peer becomes FAULT for that op
     ctx.check_proofs()
     exe, log = core.build_harness("C09", "asan", extra=WRAP)
     if exe is None:
